@@ -763,7 +763,7 @@ func g7Reserved(r *Repo, rep *Report) {
 				}
 			}
 		case *ast.CallExpr:
-			if fn, ok := callee(info, x).(*types.Func); ok && fn.Name() == "union" && len(x.Args) == 2 {
+			if fn, ok := callee(info, x).(*types.Func); ok && (fn.Name() == "union" || isPkgFunc(fn, "maps", "Copy")) && len(x.Args) == 2 {
 				if id, ok := x.Args[0].(*ast.Ident); ok && info.Uses[id] == resVar {
 					if nodeHas(x.Args[1], func(m ast.Node) bool {
 						s, ok := m.(*ast.SelectorExpr)
